@@ -111,6 +111,7 @@ class Repo:
         self._by_qual = {}
         self.parse_errors = []
         self.inlined = []
+        self.canonical = {}
         self._load()
 
     # ------------------------------------------------------------------ load
@@ -139,12 +140,14 @@ class Repo:
                 modname = modname[:-len('.__init__')]
             parsed.append((modname, rel, src, tree))
         # normalisation: new private helpers are inlined into their callers
-        from .normalize import inline_new_helpers
+        from .normalize import inline_new_helpers, canonicalise
+        trees = {m: t for m, _r, _s, t in parsed}
         try:
-            self.inlined = inline_new_helpers(
-                {m: t for m, _r, _s, t in parsed})
+            self.inlined = inline_new_helpers(trees)
         except RuntimeError as e:
             raise AnalysisError(str(e))
+        if not os.environ.get('VSA_NO_CANON'):
+            self.canonical = canonicalise(trees)
         for modname, rel, src, tree in parsed:
             set_parents(tree)
             mod = ModuleInfo(modname, rel, src, tree)
@@ -314,6 +317,7 @@ class Repo:
             'classes': sum(len(v) for v in self.classes.values()),
             'overlay': sorted(self.overlay),
             'inlined_helpers': list(self.inlined),
+            'canonical_rewrites': dict(self.canonical),
         }
 
 
